@@ -32,7 +32,7 @@ package pogreb
 //@   ensures [C16] key: err == nil ==> forall j int :: 0 <= j && j < len(key) ==> fData[fidOf[dl.curSeg.file.File]][int(off)+6+j] == key[j]
 //@   ensures [C16] value: err == nil ==> forall j int :: 0 <= j && j < len(value) ==> fData[fidOf[dl.curSeg.file.File]][int(off)+6+len(key)+j] == value[j]
 //@   ensures kept: forall i int :: 0 <= i && i < 32767 && old(dl.segments[i]) != nil ==> dl.segments[i] == old(dl.segments[i])
-//@   ensures [C03] appendonly: err == nil ==> forall h ref :: old(hOpen[h]) ==> hOpen[h] && fidOf[h] == old(fidOf[h]) && fLen[fidOf[h]] >= old(fLen[fidOf[h]]) && (fidOf[h] != fidOf[dl.curSeg.file.File] ==> fLen[fidOf[h]] == old(fLen[fidOf[h]]) && fData[fidOf[h]] == old(fData[fidOf[h]]) && fDur[fidOf[h]] >= old(fDur[fidOf[h]]))
+//@   ensures [C03] appendonly: err == nil ==> forall h ref :: old(hOpen[h]) ==> hOpen[h] && fidOf[h] == old(fidOf[h]) && fLen[fidOf[h]] >= old(fLen[fidOf[h]]) && (fidOf[h] != fidOf[dl.curSeg.file.File] ==> fLen[fidOf[h]] == old(fLen[fidOf[h]]) && fData[fidOf[h]] == old(fData[fidOf[h]]) && (fDur[fidOf[h]] == old(fDur[fidOf[h]]) || fDur[fidOf[h]] == fLen[fidOf[h]]))
 //@   flag lossless
 //@   modifies dl.curSeg, dl.segments, dl.maxSequenceID, any(segmentMeta).Full, any(segmentMeta).PutRecords, any(segmentMeta).DeleteRecords, any(file).size, dirFid[dl.opts.FileSystem], fLen, fDur, fData, hOpen, hPos, fidOf, fidName
 
@@ -43,7 +43,7 @@ package pogreb
 //@   ensures inv: err == nil ==> dlInv(dl) && dl.segments[dl.curSeg.id] == dl.curSeg
 //@   ensures [C06] sealed: err == nil ==> dlSealedDurable(dl)
 //@   ensures kept: forall i int :: 0 <= i && i < 32767 && old(dl.segments[i]) != nil ==> dl.segments[i] == old(dl.segments[i])
-//@   ensures [C03] appendonly: err == nil ==> forall h ref :: old(hOpen[h]) ==> hOpen[h] && fidOf[h] == old(fidOf[h]) && fLen[fidOf[h]] >= old(fLen[fidOf[h]]) && (fidOf[h] != fidOf[dl.curSeg.file.File] ==> fLen[fidOf[h]] == old(fLen[fidOf[h]]) && fData[fidOf[h]] == old(fData[fidOf[h]]) && fDur[fidOf[h]] >= old(fDur[fidOf[h]]))
+//@   ensures [C03] appendonly: err == nil ==> forall h ref :: old(hOpen[h]) ==> hOpen[h] && fidOf[h] == old(fidOf[h]) && fLen[fidOf[h]] >= old(fLen[fidOf[h]]) && (fidOf[h] != fidOf[dl.curSeg.file.File] ==> fLen[fidOf[h]] == old(fLen[fidOf[h]]) && fData[fidOf[h]] == old(fData[fidOf[h]]) && (fDur[fidOf[h]] == old(fDur[fidOf[h]]) || fDur[fidOf[h]] == fLen[fidOf[h]]))
 //@   flag lossless
 //@   modifies dl.curSeg, dl.segments, dl.maxSequenceID, any(segmentMeta).Full, any(segmentMeta).PutRecords, any(segmentMeta).DeleteRecords, any(segmentMeta).DeletedBytes, any(file).size, dirFid[dl.opts.FileSystem], fLen, fDur, fData, hOpen, hPos, fidOf, fidName
 
